@@ -18,7 +18,7 @@ TICK = F(1, 64)
 class StepRec:
     __slots__ = ('k', 'init', 'pre', 'post', 'T', 'truth', 'ms', 'exc', 'log', 'sel', 'head', 'mem_before',
                  'ctx_before', 'ctx_after', 'qlen_before', 'entry_before', 'idle_before', 'consumed_uid',
-                 'consumed_head', 'sent')
+                 'consumed_head', 'sent', 'consumed_key', 'head_internal')
 
     def fired_ids(self):
         return [tid(t) for t in self.ms.transitions] if self.ms is not None else []
@@ -60,10 +60,14 @@ class Sim:
         else:
             self.it.queue(Event(name, uid=uid, delay=delay))
             due = self.lastT + F(delay)
-        self.q.put(False, due, uid, name)
-        self.all_uids[uid] = {'name': name, 'due': due, 'internal': False, 'consumed_at': None,
-                              'queued_at_step': self.k}
+        self.expect_external(uid, name, due)
         return uid
+
+    def expect_external(self, uid, name, due):
+        """the model learns that an external event was put in this interpreter's queue"""
+        self.q.put(False, due, uid, name)
+        self.all_uids[(uid, False)] = {'name': name, 'due': due, 'internal': False, 'consumed_at': None,
+                                       'queued_at_step': self.k}
 
     def advance(self, d):
         self.clock.advance(float(d))
@@ -97,6 +101,8 @@ class Sim:
         r.qlen_before = self.q.pending()
         hq, h = self.q.head(r.T)
         r.head = h
+        r.head_internal = hq is self.q.internal
+        r.consumed_key = None
         r.sel = None if r.init else ref.select(sp, r.pre, h[3] if h else None, truth)
         P.truth = dict(truth)
         mark = len(P.log)
@@ -133,21 +139,23 @@ class Sim:
                         d = e.data.get('delay')
                         due = F(it.time) + (F(d) if d is not None else 0)
                         self.q.put(True, due, uid, e.name)
-                        self.all_uids[uid] = {'name': e.name, 'due': due, 'internal': True,
-                                              'consumed_at': None, 'queued_at_step': r.k}
+                        self.all_uids[(uid, True)] = {'name': e.name, 'due': due, 'internal': True,
+                                                      'consumed_at': None, 'queued_at_step': r.k}
                         r.sent.append((uid, e.name, d))
             e = r.ms.event
             if e is not None:
                 uid = event_uid(e)
+                internal = isinstance(e, InternalEvent)
                 r.consumed_uid = uid
-                r.consumed_head = (h is not None and h[2] == uid)
-                for q in (self.q.internal, self.q.external):
-                    for item in list(q):
-                        if item[2] == uid:
-                            q.remove(item)
-                            break
-                if uid in self.all_uids:
-                    info = self.all_uids[uid]
+                r.consumed_key = (uid, internal)
+                r.consumed_head = (h is not None and h[2] == uid and (hq is self.q.internal) == internal)
+                q = self.q.internal if internal else self.q.external
+                for item in list(q):
+                    if item[2] == uid:
+                        q.remove(item)
+                        break
+                if (uid, internal) in self.all_uids:
+                    info = self.all_uids[(uid, internal)]
                     info['consumed_at'] = (r.k, r.T) if info['consumed_at'] is None else 'twice'
         return r
 
